@@ -62,6 +62,7 @@ func NewCtx(prop, tier string, seed int) (*Ctx, error) {
 	if r := os.Getenv("VERIF_REPO"); r != "" && r != "/repo" {
 		c.scratchRepo = true // a run against a scratch checkout (seeded change) says nothing about /repo: no evidence file
 	}
+	_ = os.Setenv("VERIF_GOCACHE", filepath.Join(c.Work, "gocache"))
 	if err := os.MkdirAll(c.Work, 0o755); err != nil {
 		return nil, err
 	}
